@@ -46,6 +46,20 @@ CHECKS['C04'] = dict(
     technique='exhaustive closed evaluation of nullary table constructors and finite card domains against an independent rule spec + '
               'deductive VCs (pyvc/z3) for the comparison wrappers')
 
+CHECKS['C18'] = dict(
+    category='proof',
+    text='Range notation: the real parse_range is evaluated on the WHOLE notation domain named by the statement (13x13 rank pairs x '
+         '{plain,s,o,+,s+,o+}, all 13^4 x 3 dash forms incl. the illegal ones, separators) against spec/ranges.py written from the statement '
+         '(label E). Equities: the real __calculate_equities_0 is executed symbolically with abstract hand strengths; non-negativity, sum = 1 '
+         'and equality with the showdown split of spec/pots.py are SMT obligations per (players, hand types). ICM: the real calculate_icm is '
+         'executed on symbolic chips/payouts; sum = prize pool is an exact rational-function identity, non-negativity and chip-order are '
+         'decided by one-signed-coefficient certificates, per (players, paid places).',
+    design_ref='DESIGN.md section 4 (C18), section 8',
+    note='floats treated as reals; equities with all cards given only (sampling / averaging not covered); shapes: players <= 4 (quick) / 6 '
+         '(thorough), ICM players <= 4 (quick: paid <= 2 for 4 players) / 5 (thorough, paid <= 2); hand strengths abstract (C04/C05 contracts).',
+    technique='exhaustive closed evaluation of the notation domain + VCs from symbolic execution (z3) + exact rational identities / '
+              'coefficient certificates (sympy) on the real code')
+
 NOT_APPLICABLE = {
     'C20': 'regex-driven text importers against external site formats; no contract within reach expresses or decides it (DESIGN.md section 5)',
 }
